@@ -16,7 +16,7 @@ ENGINES = [
 # id -> (category, technique, engine, text, note, design_ref)
 CHECKS = {
  "C05": ("exploration","bounded-exhaustive enumeration of a finite datagram alphabet, differential against an independent reference codec","codec",
-   "Every datagram of a stated finite alphabet (packet grid; per shape all prefixes, all values of each unmasked header byte, bit flips, kind x auth-size grid, handshake size grid, all lengths 0..1400) is decoded by the real Packet::decode and by an independent reference decoder and the results must agree; encode must equal an independent reference encoder byte for byte. Exhaustive over the alphabet, not over all 2^(8*1400) strings.",
+   "Every datagram of a stated finite alphabet (packet grid; per shape all prefixes, all values of each unmasked header byte, bit flips, kind x auth-size grid, handshake size grid, all lengths 0..1400) is decoded by the real Packet::decode and by an independent reference decoder and the results must agree; encode must equal an independent reference encoder byte for byte, also under five configured protocol identities (decode under any other identity must fail). Exhaustive over the alphabet, not over all 2^(8*1400) strings.",
    "Trusts aes/ctr crates (reference masking), enr crate for record validity; CTR counter width not decided (see DESIGN.md).","3/C05"),
  "C06": ("exploration","bounded-exhaustive enumeration of a finite message/byte alphabet against an independent RLP writer plus accept=>re-encode consistency oracle","codec",
    "All messages of a stated grid round-trip and equal an independent RLP writer; all prefixes, tails, byte substitutions, deletions/insertions of representative encodings and an explicit clause list must be rejected or be the exact encoding of what they decode to.",
@@ -37,17 +37,17 @@ CHECKS = {
  "C10": ("model_checking","same search as C09; result clauses evaluated at every finished / timed-out state","query",
    "At every finished or cut-off state reached by the C09 search (and its completions): at most k results, distinct, strictly increasing XOR distance, each answered the request, predicate results reported with a satisfying record, and completeness when fewer than k are returned.",
    "Component level; accepts the constructor's truncation of the initial candidates to k.","3/C10"),
- "C14": ("exploration","exhaustive enumeration of (table content x request) pairs on the real Service over a scripted handler, wire size measured with the real session encryption and packet codec","ssim",
-   "For every combination of max_nodes_response, fill of the three populated buckets, record size (minimal / 300 bytes / sizes straddling the split threshold), distance list, request id length and requester (unknown v4/v6, stored in a requested bucket) the NODES packets emitted by the real Service are checked: exact record set, own record iff 0, never the requester, cap, common id, total = packet count, wire size <= 1280; PINGs from several sources before/after a sequence bump.",
+ "C14": ("exploration","exhaustive enumeration of (table content x request) pairs on the real Service over a scripted handler, wire size measured with the real session encryption and packet codec; plus explicit-state BFS of attacker-move histories on real handlers for the handler part of the PING clause","ssim",
+   "For every combination of max_nodes_response, fill of the three populated buckets, record size (minimal / 300 bytes / sizes straddling the split threshold), distance list, request id length and requester (unknown v4/v6, stored in a requested bucket) the NODES packets emitted by the real Service are checked: exact record set, own record iff 0, never the requester, cap, common id, total = packet count, wire size <= 1280; PINGs from several sources before/after a sequence bump. Handler part: in the attacker worlds (<= 2 (3) moves) a PING enclosed in a valid handshake - the peer's record verifiable or not - is handed to the application in that step.",
    "Only the three highest buckets can be populated with real keys; lower distances are requested but empty.","3/C14"),
  "C18": ("model_checking","explicit-state BFS of the real Limiter vs an exact token bucket, exhaustive path enumeration, history-replay BFS of the real Filter with all 16 ban/permit combinations","filter",
    "Every decision of the real GCRA limiter equals an exact token bucket on all event sequences to the stated depth (bursts 1..3, two keys, half-period grid, prune calls anywhere); on every path the pass log obeys burst + rate x window and removing prune events changes nothing; the real packet Filter (real RateLimiter, global permit/ban list) agrees with a two-stage reference on decisions, ban-list contents and ban expiry for all 16 ban/permit combinations.",
    "Half-token-period time grid; heuristics max_nodes_per_ip / max_bans_per_ip disabled; single process, list reset per execution.","3/C18"),
- "C20": ("model_checking","explicit-state BFS over all interleavings of deliver/respond/drop/shutdown on the real Service with a scripted handler","ssim",
-   "All interleavings of three concurrently delivered TALK requests (two peers, one reused id), respond / drop / hold per request object and shutdown at any point, on the real Discv5: exactly one TALKRESP per request with the right id, address and payload while running; no panic and an error value after shutdown. The graph is finite and explored completely.",
+ "C20": ("model_checking","explicit-state BFS over all interleavings of deliver/respond/drop/shutdown on the real Service with a scripted handler; plus deviation-bounded BFS on real handlers for the transport part","ssim",
+   "All interleavings of three concurrently delivered TALK requests (two peers, one reused id), respond / drop / hold per request object and shutdown at any point, on the real Discv5: exactly one TALKRESP per request with the right id, address and payload while running; no panic and an error value after shutdown. The graph is finite and explored completely. Handler part (real handlers, K <= 2 (3) deviations): while the application holds a delivered request, timer steps that only report timeouts never remove the requester's session, and the response handed over is put on the wire to the requester. The crate under test is built with its debug assertions armed.",
    "The scripted handler drops its receiver when told to exit, as the real one does.","3/C20"),
  "C11": ("model_checking","exhaustive enumeration of request classes x answer shapes on real services (requester and responder both the real Service, relayed by the harness; scripted malicious responder), one world per process, against a reference NODES validator","ssim",
-   "World A: for every log2-distance class 0..256 between lookup target and responder (every request list the lookup code can produce) and three responder table contents, a real responder service answers a real requester service: never banned, all records reach the lookup. World B: every answer of up to 2 (thorough 3) packets over 11 packet contents x 8 claimed totals (+ inconsistent totals, failure after a partial answer), floods of 22 packets and packets after completion, against a reference (completion point, on-distance filter, ban iff an off-distance record was processed).",
+   "World A: for every log2-distance class 0..256 between lookup target and responder (every request list the lookup code can produce) and three responder table contents, a real responder service answers a real requester service: never banned, all records reach the lookup. World B: every answer of up to 2 (thorough 3) packets over 11 packet contents x 8 claimed totals (+ inconsistent totals, failure after a partial answer), floods of 22 packets and packets after completion, against a reference (completion point, on-distance filter, ban of the node id iff an off-distance record was processed); every malicious shape is also run with the responder's IP already on the ban list.",
    "Real keys cannot be generated at low distances: for low request classes the only on-distance record is the responder's own. Process-global ban list: one world per execution, shards are processes.","3/C11"),
  "C12": ("model_checking","explicit-state BFS over histories of scripted handler reports and user calls on the real Service; oracle over table_entries() after every step","ssim",
    "All histories up to the stated depth, from the empty table and from a populated table with a lookup in flight, over Established (8 record shapes), UnverifiableEnr, NODES answers to lookup and ENR requests (8 shapes + the local record), PONG, RequestFailed, add_enr, remove_node, disconnect_node, find_node, for 3 IP modes x 3 table filters: every entry contactable, passes the filter, not local, admitted only via session or explicit add; NODES-learnt replacement only with strictly higher seq.",
